@@ -120,7 +120,11 @@ func (r *Rec) CountN(class string, n int64) {
 func (r *Rec) Set(k string, v interface{}) { r.mu.Lock(); r.extra[k] = v; r.mu.Unlock() }
 
 // Known records a KNOWN-FINDING line that was printed.
-func (r *Rec) Known(line string) { r.mu.Lock(); r.knownLines = append(r.knownLines, line); r.mu.Unlock() }
+func (r *Rec) Known(line string) {
+	r.mu.Lock()
+	r.knownLines = append(r.knownLines, line)
+	r.mu.Unlock()
+}
 
 // WantSample reports whether another sample would be kept.
 func (r *Rec) WantSample(nontrivial bool) bool {
